@@ -132,7 +132,7 @@ func init() {
 			s := fmt.Sprintf("%v|%q|%v|%q|", e1, t1, e2, t2)
 			wg, e3 := graph.NewWeightedAuthorizationModelGraphBuilder().Build(m)
 			if e3 != nil {
-				s += "werr:" + fmt.Sprint(errClass(e3))
+				s += "werr" // the verdict only: the error class may depend on the traversal order
 			} else {
 				b, _ := json.Marshal(encWGraph(wg, m))
 				s += string(b)
@@ -157,11 +157,38 @@ func init() {
 		}
 		w.Wait()
 		differ := 0
+		snippet := ""
 		for _, r := range results {
 			if r != seq {
 				differ++
+				if snippet == "" {
+					k := 0
+					for k < len(r) && k < len(seq) && r[k] == seq[k] {
+						k++
+					}
+					lo := k - 120
+					if lo < 0 {
+						lo = 0
+					}
+					hi := k + 120
+					a, b := seq, r
+					if hi > len(a) {
+						a = a + ""
+					}
+					snippet = fmt.Sprintf("sequential: ...%s... concurrent: ...%s...", clip(a, lo, hi), clip(b, lo, hi))
+				}
 			}
 		}
-		return map[string]any{"differ": differ, "calls": len(results), "unchanged": proto.Equal(before, m)}, nil
+		return map[string]any{"differ": differ, "calls": len(results), "unchanged": proto.Equal(before, m), "first_difference": snippet}, nil
 	})
+}
+
+func clip(s string, lo, hi int) string {
+	if hi > len(s) {
+		hi = len(s)
+	}
+	if lo > hi {
+		lo = hi
+	}
+	return s[lo:hi]
 }
